@@ -13,6 +13,7 @@ RULE = ("kinds: mcmc (the real batchie.sampling.sample driving a counting stub M
         "malformed (t<=0, b<0, n<=0, index out of range or negative, negative seed, None arguments, pre-filled or short holder, "
         "non-model object).  Non-trivial: every case that issues at least one step or record; distinct by case description.")
 THEOREMS = {
+    "C17_model_is_source": "the hand-written model sample equals, for all arguments, the Gallina translation of the whole function batchie.sampling.sample regenerated from /repo's current source on this run (Generated/SrcSampling.v)",
     "C17_trace": "for b>=0, t>=1, n>=0, valid key: trace = Reset, SetRng(seed,[chain_index]), b Steps, then n blocks of (t Steps, Record); final holder length n",
     "C17_step_count": "exactly b + n*t steps",
     "C17_record_marks": "a state is recorded after exactly the steps numbered b+t, b+2t, ..., b+n*t and nowhere else",
@@ -31,7 +32,12 @@ ASSUMPTIONS = [
     "non-overlap of PCG64 streams for distinct spawn keys is numpy's documented guarantee; not provable in the model",
     "the model object only sees reset_model/set_rng/step/get_model_state/sample calls; the holder only add_theta/n_thetas",
 ]
-EXPLANATION = ("Model: Model/Sampling.v (counter machine emitting the call trace; burn-in loop, thinning loop with (step_index+1) % thin, "
+EXPLANATION = ("Tie to the code, two ways: (1) the whole function sample is re-translated from /repo's current source on every run "
+               "(harness/py2gal.py, fail-closed) and C17_model_is_source proves the hand-written model equal to the translation for "
+               "all arguments - trusted there: the translator and the primitives it is configured with (model.step / reset_model / "
+               "set_rng / sample and results.add_theta as trace events, SeedSequence.spawn / default_rng as key arithmetic, "
+               "trange(n) = range(n)); (2) the differential correspondence below, which exercises exactly those primitives on the "
+               "real objects.  Model: Model/Sampling.v (counter machine emitting the call trace; burn-in loop, thinning loop with (step_index+1) % thin, "
                "ThetaHolder capacity check, VI branch, the match on the model class, None-argument checks).  Partial: stream non-overlap "
                "(numpy).  Not modelled: logging, tqdm.")
 
